@@ -516,8 +516,10 @@ int main(int argc, char** argv) {
         std::vector<std::string> names; static const unsigned char NA[] = {0, 1, 2, 3, 0x3f, 0x40, 0xc0, 0xff};
         names.push_back("");
         for (unsigned char x : NA) { names.push_back(std::string(1, (char)x)); for (unsigned char y : NA) { names.push_back(std::string{(char)x, (char)y}); for (unsigned char z : NA) names.push_back(std::string{(char)x, (char)y, (char)z}); } }
-        // structured: k labels of length 1, then a label whose length byte overshoots the end by 0..3 (with and without root label); total lengths up to 300
-        for (int k : {0, 1, 2, 5, 19, 20, 21, 63, 100, 127, 149}) for (int over = -1; over <= 3; over++) for (int lastlen : {1, 7, 25, 63, 255}) {
+        // structured: k labels of length 1, then a label whose length byte overshoots the end by 0..3 (with and without root label); up to 65600 labels
+        // (label counts and total sizes around 2^8 and 2^16 as well: counters narrower than the name wrap there)
+        for (int k : {0, 1, 2, 5, 19, 20, 21, 63, 100, 127, 149, 253, 254, 255, 256, 257, 300, 511, 512, 513, 600, 32767, 32768, 32800, 65535, 65536, 65600}) for (int over = -1; over <= 3; over++) for (int lastlen : {1, 7, 25, 63, 200, 255}) {
+            if (k > 600 && !(lastlen == 7 || lastlen == 200)) continue;
             std::string n; for (int i = 0; i < k; i++) { n.push_back(1); n.push_back('a'); }
             int payload = lastlen - over; if (payload < 0) payload = 0; n.push_back((char)lastlen); n.append((size_t)payload, 'b'); names.push_back(n); names.push_back(n + std::string(1, '\0')); }
         for (size_t L : {(size_t)40, (size_t)64, (size_t)255, (size_t)256, (size_t)300}) { names.push_back(std::string(L, '\x01')); names.push_back(std::string(L, '\xff')); std::string n(L, '\x01'); n[L / 2] = 25; names.push_back(n); }
